@@ -25,6 +25,18 @@ def run(ctx, rep):
     check_note_duration(ctx, rd)
     ri = rep.rule("index-table", "TAP and FORCED are the file format's indices 6 and 5", floor=7)
     N.check_index_table(ri)
+    rls = rep.rule("lanes", "the note compared with its predecessor ('differs', 'chord') is the note the tick's lines write: lane store per "
+                            "datum, Note table = {0,1}^5, note computed from the whole group", floor=34)
+    N.check_lane_store(rls)
+    N.check_note_table(rls)
+    N.check_note_wiring(rls)
+    rsrc = rep.rule("sources", "the threshold's resolution is this chart's: resolution = metadata.resolution; every builder receives this "
+                               "chart's tempo map (no default, no memo across charts)", floor=8)
+    from .wiring import check_all_sections, check_from_file_wiring
+    from .timing import Timing
+    check_from_file_wiring(ctx, rsrc)
+    check_all_sections(ctx, rsrc, strict=False)
+    Timing(ctx).check_folds(rsrc)
     rrf = rep.rule("resolution-field", "the resolution every tick-to-time conversion and tick distance uses is the integer written on "
                                        "the [Song] Resolution line (converter int, digits-only capture)", floor=3)
     from .C15 import check_resolution_field
